@@ -1,28 +1,52 @@
-"""Row-merge SpGEMM (amgcl/detail/spgemm.hpp: prod_row_width / prod_row): cursor discipline of the walk over one row of A.
+"""Row-merge SpGEMM (amgcl/detail/spgemm.hpp: prod_row_width / prod_row): discipline of the walk over one row of A.
 
-Both functions receive the row of A as a cursor pair (acol, acol_end) (prod_row also the value cursor aval) and merge the rows of B the
-entries select - one row directly, two rows by one merge, more rows by pairs plus a tail.  Whatever the branch, C = A * B needs
+Both functions receive the row of A as the range (acol, acol_end) (prod_row also the values aval) and merge the rows of B the entries
+select - one row directly, two rows by one merge, more rows by pairs plus a tail.  Whatever the branch, C = A * B needs
 
-  rmerge-row-consumed   every entry of the row takes part: at every exit of the function the number of entries not yet passed by the cursor
-                        equals the number of entries read at the cursor (`*acol`, `acol[k]`), and the cursor is never advanced / read past
-                        the end.  Decided by an interval analysis of  r = acol_end - acol  over the CFG; branch conditions in any
-                        spelling that is linear in r (`nrows == 2`, `acol + 1 < acol_end`, `acol_end - acol > 1`, `acol == acol_end`)
+  rmerge-row-consumed   every entry of the row takes part: at every exit of the function the entries not yet passed by the walk have all
+                        been read at the current position, and the walk never advances / reads past the end.  Decided by an interval
+                        analysis of  r = (entries of the row not yet passed)  over the CFG; branch conditions in any spelling that is
+                        linear in r (`nrows == 2`, `acol + 1 < acol_end`, `acol_end - acol > 1`, `acol == acol_end`, `k + 1 < nrows`)
                         refine the interval.
-  rmerge-coefficient    an entry's value accompanies its column: (a) at every exit the value cursor has consumed the positions the column
-                        cursor has; (b) in a merge_rows call, the coefficient of a row of B selected by the column at position p of the
+  rmerge-coefficient    an entry's value accompanies its column: (a) at every exit the values of the entries the walk has taken were
+                        taken too; (b) in a merge_rows call, the coefficient of a row of B selected by the column at position p of the
                         row of A is the value at position p.
 
-The rule decides the walk over A (which entries are merged, with which coefficient), not merge_rows itself nor the numbers.
+The walk may be written with moving pointers (`*acol++`, `acol += 2`, `acol[1]`) or with an index (`acol[k]`, `acol[k + 1]`, `k += 2`);
+positions are kept relative to the current position of the walk in both spellings.  The rule decides the walk over A (which entries are
+merged, with which coefficient), not merge_rows itself nor the numbers.
 """
-from ir import walk, unwrap, show
+from ir import walk, unwrap, show, children
 
 INF = 10 ** 9
 
 
-def _cursor_params(f):
-    """(column cursor, end, value cursor or None) by role, not by name: the first two parameters are pointers of one type (cursor and end
-    of the row of A); the value cursor is the pointer-to-const parameter of another pointee type that the function advances or
-    dereferences directly (bptr / bcol / bval are only indexed by entries or offset; the out_* cursors point to non-const)"""
+def _is_ref(e, d):
+    e = unwrap(e)
+    return e is not None and e['k'] == 'ref' and e['d'] == d
+
+
+def _int_lit(e):
+    e = unwrap(e)
+    if e is not None and e['k'] == 'lit' and str(e.get('v', '')).lstrip('-').isdigit():
+        return int(e['v'])
+    return None
+
+
+def _modified(f, d):
+    for n in f.nodes.values():
+        if n['k'] == 'un' and n['op'] in ('++', '--') and _is_ref(n['e'], d):
+            return True
+        if n['k'] == 'bin' and n['op'] in ('+=', '-=') and _is_ref(n['x'], d):
+            return True
+    return False
+
+
+def _roles(f):
+    """dict(cur, end, val, kidx): the range of column indices is given by the first two parameters (pointers of one type); the values by
+    the pointer-to-const parameter of another pointee type that the function advances, dereferences or subscripts with a literal or with
+    the walking index (bptr / bcol / bval are only subscripted by entries or offset; the out_* cursors point to non-const).  kidx: the
+    integer local that subscripts the column pointer when the pointer itself does not move."""
     ps = list(f.params)
     if len(ps) < 2:
         return None
@@ -30,39 +54,46 @@ def _cursor_params(f):
     if not d0.get('ptr') or not d1.get('ptr') or d0.get('ct') != d1.get('ct'):
         return None
     cur, end = ps[0], ps[1]
+    kidx = None
+    if not _modified(f, cur):
+        cands = {}
+        for n in f.nodes.values():
+            if n['k'] == 'idx' and _is_ref(n['b'], cur):
+                for x in walk(n['x']):
+                    if x['k'] == 'ref' and f.decl(x['d']).get('k') == 'local' and (_modified(f, x['d'])):
+                        cands[x['d']] = cands.get(x['d'], 0) + 1
+        if len(cands) == 1:
+            kidx = list(cands)[0]
+        elif cands:
+            return None
     val = None
     for p in ps[2:]:
         dp = f.decl(p)
         if not dp.get('ptr') or dp.get('ct') == d0.get('ct') or not f.unit.type(dp['ct']).startswith('const '):
             continue
-        used = False
+        used = _modified(f, p)
         for n in f.nodes.values():
-            if n['k'] == 'un' and n['op'] in ('++', '*'):
-                x = unwrap(n['e'])
-                if x is not None and x['k'] == 'ref' and x['d'] == p:
-                    used = True
-            if n['k'] == 'idx':
-                x, q = unwrap(n['b']), unwrap(n['x'])
-                if x is not None and x['k'] == 'ref' and x['d'] == p and q is not None and q['k'] == 'lit':
-                    used = True
-            if n['k'] == 'bin' and n['op'] == '+=':
-                x = unwrap(n['x'])
-                if x is not None and x['k'] == 'ref' and x['d'] == p:
+            if n['k'] == 'un' and n['op'] == '*' and _is_ref(n['e'], p):
+                used = True
+            if n['k'] == 'idx' and _is_ref(n['b'], p):
+                if _int_lit(n['x']) is not None or (kidx is not None and any(x['k'] == 'ref' and x['d'] == kidx for x in walk(n['x']))):
                     used = True
         if used:
             val = p
             break
-    return cur, end, val
+    return dict(cur=cur, end=end, val=val, kidx=kidx)
 
 
 class _St(object):
-    __slots__ = ('lo', 'hi', 'reads', 'd', 'rv', 'vars')
+    """lo..hi: interval of r; p: exact position of the walk or None; reads / rv: positions (relative to the walk) of the columns / values
+    read there; d: position of a moving value pointer minus position of the walk; vars: (decl, kind, payload)"""
+    __slots__ = ('lo', 'hi', 'p', 'reads', 'd', 'rv', 'vars')
 
-    def __init__(self, lo, hi, reads, d, rv, vars_):
-        self.lo, self.hi, self.reads, self.d, self.rv, self.vars = lo, hi, reads, d, rv, vars_
+    def __init__(self, lo, hi, p, reads, d, rv, vars_):
+        self.lo, self.hi, self.p, self.reads, self.d, self.rv, self.vars = lo, hi, p, reads, d, rv, vars_
 
     def key(self):
-        return (self.lo, self.hi, self.reads, self.d, self.rv, self.vars)
+        return (self.lo, self.hi, self.p, self.reads, self.d, self.rv, self.vars)
 
     def __eq__(self, o):
         return self.key() == o.key()
@@ -71,7 +102,7 @@ class _St(object):
         return self.key() != o.key()
 
     def copy(self):
-        return _St(self.lo, self.hi, self.reads, self.d, self.rv, self.vars)
+        return _St(self.lo, self.hi, self.p, self.reads, self.d, self.rv, self.vars)
 
 
 def _join(a, b):
@@ -81,93 +112,139 @@ def _join(a, b):
         lo = 0                      # widening: a shrinking lower bound goes to its floor
     if hi > a.hi:
         hi = INF                    # widening: a growing upper bound goes to infinity
-    return _St(lo, hi, a.reads & b.reads, a.d if a.d == b.d else None, a.rv & b.rv, a.vars & b.vars)
+    return _St(lo, hi, a.p if a.p == b.p else None, a.reads & b.reads, a.d if a.d == b.d else None, a.rv & b.rv, a.vars & b.vars)
 
 
 class Walk(object):
-    def __init__(self, f):
+    def __init__(self, f, roles=None):
         self.f = f
-        self.cur, self.end, self.val = _cursor_params(f)
+        r = roles or _roles(f)
+        self.cur, self.end, self.val, self.kidx = r['cur'], r['end'], r['val'], r['kidx']
+        self.vptr = self.val is not None and _modified(f, self.val)
         self.problems = []          # (node, text)
         self.merges = {}            # call node id -> [(ok, text)]
-        self.exits = {}             # node id / 'end' -> (ok, text)
+        self.exits = {}             # node id / 'end' -> (tag, ok, text)
         self.advances = 0
 
     # ---- expression helpers
-    def _is(self, e, d):
+    def _pos_expr(self, e, st):
+        """offset c when the subscript e denotes (position of the walk) + c: `k`, `k + 1`, `1 + k` in the index spelling"""
         e = unwrap(e)
-        return e is not None and e['k'] == 'ref' and e['d'] == d
+        if e is None or self.kidx is None:
+            return None
+        if _is_ref(e, self.kidx):
+            return 0
+        if e['k'] == 'bin' and e['op'] in ('+', '-'):
+            for a, b, sw in ((e['x'], e['y'], False), (e['y'], e['x'], True)):
+                c = _int_lit(b)
+                if _is_ref(a, self.kidx) and c is not None and not (sw and e['op'] == '-'):
+                    return c if e['op'] == '+' else -c
+        return None
 
     def _read_of(self, e, st):
-        """(which, relative position) if e reads an element through a cursor: `*c`, `c[k]`, `*(c + k)`, `*c++`; else None.  Evaluated
-        AFTER the side effects of e have been applied to st (a post-increment read has position -1 then)."""
+        """(which, position relative to the walk) if e reads an element of the row: `*c`, `c[1]`, `*(c + 1)`, `*c++`, `c[k + 1]`; else None.
+        Evaluated AFTER the side effects of e have been applied to st (a post-increment read lies one behind then)."""
         e = unwrap(e)
         if e is None:
             return None
         for which, c in (('c', self.cur), ('v', self.val)):
             if c is None:
                 continue
+            moving = (which == 'c' and self.kidx is None) or (which == 'v' and self.vptr)
+            # base: position of the pointer c relative to the walk
+            if which == 'c':
+                base = 0 if moving else (None if st.p is None else -st.p)
+            else:
+                base = st.d if moving else (None if st.p is None else -st.p)
+            off = None
+            direct = False
             if e['k'] == 'un' and e['op'] == '*':
                 x = unwrap(e['e'])
-                if self._is(x, c):
-                    return which, 0
-                if x is not None and x['k'] == 'un' and x['op'] == '++' and self._is(x['e'], c):
-                    return which, (-1 if x.get('post') else 0)
-                if x is not None and x['k'] == 'bin' and x['op'] == '+':
-                    for p, q in ((x['x'], x['y']), (x['y'], x['x'])):
-                        q = unwrap(q)
-                        if self._is(p, c) and q is not None and q['k'] == 'lit' and str(q.get('v', '')).isdigit():
-                            return which, int(q['v'])
-            if e['k'] == 'idx' and self._is(e['b'], c):
-                q = unwrap(e['x'])
-                if q is not None and q['k'] == 'lit' and str(q.get('v', '')).isdigit():
-                    return which, int(q['v'])
-                return which, None
+                if _is_ref(x, c):
+                    off = 0
+                elif x is not None and x['k'] == 'un' and x['op'] == '++' and _is_ref(x['e'], c):
+                    off = -1 if x.get('post') else 0
+                elif x is not None and x['k'] == 'bin' and x['op'] == '+':
+                    for p_, q in ((x['x'], x['y']), (x['y'], x['x'])):
+                        if _is_ref(p_, c):
+                            if _int_lit(q) is not None:
+                                off = _int_lit(q)
+                            elif not moving and self._pos_expr(q, st) is not None:
+                                off, direct = self._pos_expr(q, st), True
+                            else:
+                                return which, None
+                if off is None:
+                    continue
+            elif e['k'] == 'idx' and _is_ref(e['b'], c):
+                if _int_lit(e['x']) is not None:
+                    off = _int_lit(e['x'])
+                elif not moving and self._pos_expr(e['x'], st) is not None:
+                    off, direct = self._pos_expr(e['x'], st), True
+                else:
+                    return which, None
+            else:
+                continue
+            if direct:
+                return which, off
+            return which, (None if base is None else base + off)
         return None
 
     def _lin(self, e, st):
-        """e as kr * r + c with r = end - cur (pointers relative to the cursor); None when not of that form"""
+        """e as (kr, kN, c) = kr * r + kN * N + c, N the length of the row; None when not of that form"""
         e = unwrap(e)
         if e is None:
             return None
-        if e['k'] == 'lit' and str(e.get('v', '')).lstrip('-').isdigit():
-            return 0, int(e['v'])
+        c = _int_lit(e)
+        if c is not None:
+            return 0, 0, c
         if e['k'] == 'ref':
             if e['d'] == self.cur:
-                return 0, 0
+                return (-1, 1, 0) if self.kidx is None else (0, 0, 0)
             if e['d'] == self.end:
-                return 1, 0
-            for d, w, off in st.vars:
-                if d == e['d'] and w == 'n':
-                    return 1, off
+                return 0, 1, 0
+            if self.kidx is not None and e['d'] == self.kidx:
+                return -1, 1, 0
+            for d, w, pay in st.vars:
+                if d == e['d'] and w == 'l':
+                    return pay
             return None
         if e['k'] == 'bin' and e['op'] in ('+', '-'):
             a, b = self._lin(e['x'], st), self._lin(e['y'], st)
             if a is None or b is None:
                 return None
             s = 1 if e['op'] == '+' else -1
-            return a[0] + s * b[0], a[1] + s * b[1]
+            return a[0] + s * b[0], a[1] + s * b[1], a[2] + s * b[2]
         return None
 
     # ---- transfer
     def _advance(self, st, which, n, node):
         if which == 'c':
             self.advances += 1
+            if n < 0:
+                self.problems.append((node, 'the walk over the row moves backwards at %s' % self.f.where(node)))
+                return
             if st.lo < n:
-                self.problems.append((node, 'the column cursor is advanced at %s although %s may be left in the row' % (
+                self.problems.append((node, 'the walk over the row is advanced at %s although %s may be left in the row' % (
                     self.f.where(node), 'no entry' if st.lo == 0 else 'only %d entries' % st.lo)))
             st.lo = max(0, st.lo - n)
             st.hi = st.hi if st.hi >= INF else max(0, st.hi - n)
+            st.p = None if st.p is None else st.p + n
             st.reads = frozenset(k - n for k in st.reads if k - n >= 0)
-            st.d = None if st.d is None else st.d - n
-            st.vars = frozenset((d, w, (off - n if w == 'c' else (off + n if w == 'n' else off))) for d, w, off in st.vars)
-        else:
             st.rv = frozenset(k - n for k in st.rv if k - n >= 0)
+            if self.vptr:
+                st.d = None if st.d is None else st.d - n
+            nv = set()
+            for d, w, pay in st.vars:
+                if w in ('c', 'v'):
+                    nv.add((d, w, pay - n))
+                else:               # a value kr * r + ...: r_old = r_new + n
+                    nv.add((d, w, (pay[0], pay[1], pay[2] + pay[0] * n)))
+            st.vars = frozenset(nv)
+        else:
             st.d = None if st.d is None else st.d + n
-            st.vars = frozenset((d, w, (off - n if w == 'v' else off)) for d, w, off in st.vars)
 
     def _effects(self, e, st):
-        """apply, in evaluation order, the cursor effects of the expression tree e"""
+        """apply, in evaluation order, the effects of the expression tree e on the walk"""
         if e is None:
             return
         k = e.get('k')
@@ -176,33 +253,38 @@ class Walk(object):
         if k == 'bin' and e['op'] in ('=', '+=', '-='):
             self._effects(e['y'], st)
             tgt = unwrap(e['x'])
-            for which, c in (('c', self.cur), ('v', self.val)):
-                if c is not None and self._is(tgt, c):
-                    q = unwrap(e['y'])
-                    if e['op'] == '+=' and q is not None and q['k'] == 'lit' and str(q.get('v', '')).isdigit():
-                        self._advance(st, which, int(q['v']), e)
+            for which, c in (('c', self.cur if self.kidx is None else self.kidx), ('v', self.val)):
+                if c is not None and _is_ref(tgt, c):
+                    q = _int_lit(e['y'])
+                    if e['op'] == '+=' and q is not None:
+                        self._advance(st, which, q, e)
+                    elif e['op'] == '=' and which == 'c' and self.kidx is not None and q is not None and st.p is not None:
+                        self._advance(st, 'c', q - st.p, e)
                     else:
-                        self.problems.append((e, 'the cursor `%s` is reassigned at %s in a way the analysis does not follow' % (self.f.decl(c)['n'], self.f.where(e))))
+                        self.problems.append((e, '`%s` is reassigned at %s in a way the analysis does not follow' % (self.f.decl(c)['n'], self.f.where(e))))
                     return
             self._effects(e['x'], st)
             if e['op'] == '=' and tgt is not None and tgt['k'] == 'ref':
                 self._define(tgt['d'], e['y'], st)
             return
         if k == 'un' and e['op'] in ('++', '--'):
-            for which, c in (('c', self.cur), ('v', self.val)):
-                if c is not None and self._is(e['e'], c):
-                    if e['op'] == '++':
-                        self._advance(st, which, 1, e)
-                    else:
-                        self.problems.append((e, 'the cursor `%s` moves backwards at %s' % (self.f.decl(c)['n'], self.f.where(e))))
+            for which, c in (('c', self.cur if self.kidx is None else self.kidx), ('v', self.val)):
+                if c is not None and _is_ref(e['e'], c):
+                    self._advance(st, which, 1 if e['op'] == '++' else -1, e)
                     return
         if k == 'decl':
             for v in e['v']:
                 if v.get('init') is not None:
                     self._effects(v['init'], st)
+                    if self.kidx is not None and v['d'] == self.kidx:
+                        q = _int_lit(v['init'])
+                        if q is not None and st.p is not None:
+                            self._advance(st, 'c', q - st.p, e)
+                        else:
+                            self.problems.append((e, 'the walking index `%s` starts at %s from a value the analysis does not follow' % (self.f.decl(self.kidx)['n'], self.f.where(e))))
+                        continue
                     self._define(v['d'], v['init'], st)
             return
-        from ir import children
         for ch in children(e):
             self._effects(ch, st)
         r = self._read_of(e, st)
@@ -210,7 +292,7 @@ class Walk(object):
             which, pos = r
             if which == 'c':
                 if st.lo < pos + 1:
-                    self.problems.append((e, 'the row entry at offset %d from the cursor is read at %s although %s may be left' % (
+                    self.problems.append((e, 'the row entry at offset %d from the position of the walk is read at %s although %s may be left' % (
                         pos, self.f.where(e), 'no entry' if st.lo == 0 else 'only %d' % st.lo)))
                 st.reads = st.reads | {pos}
             else:
@@ -225,35 +307,28 @@ class Walk(object):
             st.vars = st.vars | {(d, r[0], r[1])}
             return
         l = self._lin(init, st)
-        if l is not None and l[0] == 1:
-            st.vars = st.vars | {(d, 'n', l[1])}
+        if l is not None and (l[0] != 0 or l[1] != 0):
+            st.vars = st.vars | {(d, 'l', l)}
             return
         # a local computed from one entry (`b1_beg = bptr[ac1]`, `row1_end = bcol + bptr[a1 + 1]`) stands for that entry
         for which in ('c', 'v'):
-            ps = self._raw_positions(init, st, which)
+            ps = self._positions(init, st, which)
             if len(ps) == 1 and None not in ps:
                 st.vars = st.vars | {(d, which, min(ps))}
                 return
 
-    def _raw_positions(self, e, st, which):
-        """positions, relative to their own cursor, of the `which` cursor elements the expression e mentions"""
+    def _positions(self, e, st, which):
+        """positions, relative to the walk, of the columns ('c') / values ('v') of A the expression e mentions"""
         out = set()
         for x in walk(e):
             if x['k'] == 'ref':
-                for d, w, off in st.vars:
+                for d, w, pay in st.vars:
                     if d == x['d'] and w == which:
-                        out.add(off)
+                        out.add(pay)
             r = self._read_of(x, st)
-            if r is not None and r[0] == which and r[1] is not None:
+            if r is not None and r[0] == which:
                 out.add(r[1])
         return out
-
-    def _positions(self, e, st, which):
-        """the same positions relative to the column cursor (None: the distance of the two cursors is not known)"""
-        ps = self._raw_positions(e, st, which)
-        if which == 'c':
-            return ps
-        return set(None if st.d is None else p_ + st.d for p_ in ps)
 
     def _merge(self, call, st):
         a = call.get('a', [])
@@ -268,13 +343,13 @@ class Walk(object):
             vpos = self._positions(coef, st, 'v')
             if not cpos:
                 continue            # a temporary row (already scaled)
-            if len(cpos) != 1:
+            if len(cpos) != 1 or None in cpos:
                 res.append((False, 'the row of B passed as operand %d of the merge at %s is delimited through different entries of A' % (g // 4 + 1, self.f.where(call))))
             elif not vpos:
-                res.append((False, 'the row of B selected by the entry of A at cursor offset %d is merged at %s with coefficient `%s`, which is not the value of that entry' % (
+                res.append((False, 'the row of B selected by the entry of A at offset %d from the walk is merged at %s with coefficient `%s`, which is not the value of that entry' % (
                     min(cpos), self.f.where(call), show(coef)[:40])))
             elif vpos != cpos:
-                res.append((False, 'the row of B selected by the entry of A at cursor offset %s is merged at %s with the value of the entry at offset %s (`%s`)' % (
+                res.append((False, 'the row of B selected by the entry of A at offset %s from the walk is merged at %s with the value of the entry at offset %s (`%s`)' % (
                     min(cpos), self.f.where(call), sorted(vpos, key=lambda z: (z is None, z))[0], show(coef)[:40])))
             else:
                 res.append((True, ''))
@@ -293,7 +368,11 @@ class Walk(object):
         L, R = self._lin(c['x'], st), self._lin(c['y'], st)
         if L is None or R is None:
             return st
-        kr, k0, op = L[0] - R[0], L[1] - R[1], c['op']
+        kr, kn, k0, op = L[0] - R[0], L[1] - R[1], L[2] - R[2], c['op']
+        if kn != 0 and st.p is not None:
+            kr, k0, kn = kr + kn, k0 + kn * st.p, 0        # N = r + (position of the walk)
+        if kn != 0:
+            return st
         if kr == 0:
             val = {'<': k0 < 0, '<=': k0 <= 0, '>': k0 > 0, '>=': k0 >= 0, '==': k0 == 0, '!=': k0 != 0}[op]
             return st if val == truth else None
@@ -331,20 +410,21 @@ class Walk(object):
             return
         if st.hi >= INF or not set(range(st.hi)) <= set(st.reads):
             left = 'any number of' if st.hi >= INF else 'up to %d' % (st.hi - len([k for k in range(st.hi) if k in st.reads]))
-            self.exits[key] = ('row', False, 'at %s %s entries of the row of A may be left that were neither passed by the cursor nor read (remaining entries in [%d, %s], read at the cursor: %s)' % (
-                where, left, st.lo, 'inf' if st.hi >= INF else st.hi, sorted(st.reads)))
-        elif self.val is not None and (st.d != 0 or not set(range(st.hi)) <= set(st.rv)):
-            self.exits[key] = ('coef', False, 'at %s the value cursor has not consumed the entries the column cursor has (value cursor %s the column cursor; values read at the cursor: %s, columns read: %s)' % (
-                where, 'level with' if st.d == 0 else ('%+d from' % st.d if st.d is not None else 'at an unknown distance from'), sorted(st.rv), sorted(st.reads)))
+            self.exits[key] = ('row', False, 'at %s %s entries of the row of A may be left that were neither passed by the walk nor read (entries left in [%d, %s], read at the '
+                                             'position of the walk: %s)' % (where, left, st.lo, 'inf' if st.hi >= INF else st.hi, sorted(st.reads)))
+        elif self.val is not None and ((self.vptr and st.d != 0) or not set(range(st.hi)) <= set(st.rv)):
+            self.exits[key] = ('coef', False, 'at %s the values of the row have not been taken along with its columns (%svalues read at the position of the walk: %s, columns read: %s)' % (
+                where, '' if not self.vptr else ('the value pointer is %s the column walk; ' % ('level with' if st.d == 0 else ('%+d from' % st.d if st.d is not None else 'at an unknown distance from'))),
+                sorted(st.rv), sorted(st.reads)))
         elif key not in self.exits:
             self.exits[key] = ('', True, '')
 
     def run(self):
-        """The abstract state is a small disjunction of interval states, one per (entries read at the cursor, distance of the cursors):
-        `if (acol != acol_end) { a = *acol; ... }` leaves {one entry left, read} on one side and {none left} on the other - both fine,
-        their interval hull with the intersection of the reads would not be."""
+        """The abstract state is a small disjunction of interval states, one per (entries read at the position of the walk, distance of a
+        moving value pointer): `if (acol != acol_end) { a = *acol; ... }` leaves {one entry left, read} on one side and {none left} on
+        the other - both fine, their interval hull with the intersection of the reads would not be."""
         f, cfg = self.f, self.f.cfg
-        init = (_St(0, INF, frozenset(), 0, frozenset(), frozenset()),)
+        init = (_St(0, INF, 0, frozenset(), 0, frozenset(), frozenset()),)
         states = {'exit': []}
 
         def part(st):
@@ -357,7 +437,7 @@ class Walk(object):
                 k = part(st)
                 if k in by:
                     a = by[k]
-                    by[k] = _St(min(a.lo, st.lo), max(a.hi, st.hi), a.reads, a.d, a.rv, a.vars & st.vars)
+                    by[k] = _St(min(a.lo, st.lo), max(a.hi, st.hi), a.p if a.p == st.p else None, a.reads, a.d, a.rv, a.vars & st.vars)
                 else:
                     by[k] = st
             out = []
@@ -373,7 +453,7 @@ class Walk(object):
                 for st in out[1:]:
                     h = _join(h, st)
                 out = [h]
-            return tuple(sorted(out, key=lambda z: (z.lo, z.hi, sorted(z.reads), sorted(z.rv), z.d is None, z.d or 0, sorted(z.vars))))
+            return tuple(sorted(out, key=lambda z: (z.lo, z.hi, z.p is None, z.p or 0, sorted(z.reads), sorted(z.rv), z.d is None, z.d or 0, sorted(map(str, z.vars)))))
 
         def transfer(b, sts):
             out = []
@@ -417,10 +497,10 @@ class Walk(object):
 
 def rule_rmerge(ck, units, control=None, floor_rows=2, floor_coef=5):
     ck.rule('rmerge-row-consumed', 'row-merge SpGEMM (prod_row_width, prod_row): on every path every entry of the row of A takes part - at each exit the entries not passed by the '
-                                   'column cursor have all been read at the cursor, and the cursor is never advanced or read past the end (interval analysis of acol_end - acol '
-                                   'over the CFG, branch conditions in any linear spelling)', floor_rows)
-    ck.rule('rmerge-coefficient', 'row-merge SpGEMM (prod_row): the value of an entry accompanies its column - at each exit the value cursor has consumed what the column cursor '
-                                  'has, and in every merge_rows call the coefficient of a row of B selected by the entry at position p is the value at position p', floor_coef)
+                                   'walk have all been read at its position, and the walk never advances or reads past the end (interval analysis of the number of entries left '
+                                   'over the CFG, branch conditions in any linear spelling, pointer or index walk)', floor_rows)
+    ck.rule('rmerge-coefficient', 'row-merge SpGEMM (prod_row): the value of an entry accompanies its column - at each exit the values of the entries taken were taken too, and in '
+                                  'every merge_rows call the coefficient of a row of B selected by the entry at position p is the value at position p', floor_coef)
     if control is not None:
         seen = False
         for f in control.funcs:
@@ -437,11 +517,12 @@ def rule_rmerge(ck, units, control=None, floor_rows=2, floor_coef=5):
             if (f.q, f.line) in done:
                 continue
             done.add((f.q, f.line))
-            if _cursor_params(f) is None:
+            roles = _roles(f)
+            if roles is None:
                 continue
-            w = Walk(f).run()
+            w = Walk(f, roles).run()
             if w.advances == 0:
-                continue            # not written with a moving cursor: not an instance of this rule (the floor notices)
+                continue            # not written as a walk the analysis knows: not an instance of this rule (the floor notices)
             bad = [t for _, t in w.problems] + [t for tag, ok, t in w.exits.values() if tag == 'row']
             ck.ob('rmerge-row-consumed', '%s|%s' % (f.rel(), f.q), f.where(), not bad, '; '.join(sorted(set(bad)))[:900])
             if w.val is None:
